@@ -9,6 +9,7 @@
      21        unquoted and single-quoted strings
      22, 23    concatenations of two / three pieces: forms x contents x trivia around +
      24        all runs of two and three elements over \\ \n \t \" n t r and plain text
+     25        comments (shared body menu) between and around the pieces of "a" + 'x' + "b"
      100, 101  NRand / 2 layouts each, drawn at random from all the menus (TLC -seed)
    Size selects the menus: "quick" or "thorough".                                 *)
 EXTENDS YangString, Json, SequencesExt, FiniteSets, TLC
@@ -90,11 +91,12 @@ Feat(pieces) ==
 \* the definitions of YangString checked against themselves on every generated double-quoted source
 Sane(pieces) == \A k \in 1..Len(pieces) : pieces[k].q = "d" =>
   /\ PlainIsVerbatim(pieces[k].src, 7) /\ SingleLineLayoutFree(pieces[k].src) /\ NoBreakNoStrip(pieces[k].src, 7)
-Vec(f, pre, pieces, joins, tail) ==
+VecAt(f, pre, pieces, joins, tail, path) ==
   LET r == RenderArg(HeadTxt \o pre, pieces, joins) IN
-  [fam |-> f, text |-> r.text \o tail \o FootTxt, path |-> PathOf(pre), expect |-> r.value, judged |-> r.judged, feat |-> Feat(pieces),
+  [fam |-> f, text |-> r.text \o tail \o FootTxt, path |-> path, expect |-> r.value, judged |-> r.judged, feat |-> Feat(pieces),
    sane |-> Assert(Sane(pieces), <<"spec fault: YangString contradicts itself on", pieces>>)]
 
+Vec(f, pre, pieces, joins, tail) == VecAt(f, pre, pieces, joins, tail, PathOf(pre))
 D(src) == [q |-> "d", src |-> src]
 S(src) == [q |-> "s", src |-> src]
 U(src) == [q |-> "u", src |-> src]
@@ -132,12 +134,21 @@ Concat3(u_) == UNION {LET pre == Pres[p]  M == PieceMenu(QC(pre)) IN
 
 \* family 24: runs of two and three elements over the four escapes and the plain characters that look like one when a
 \* backslash happens to stand before them (n, t, r, a quote-free word): \\ directly followed by n is a backslash and an n
-EscEl == << <<BSL, BSL>>, <<BSL, 110>>, <<BSL, 116>>, <<BSL, DQ>>, C("n"), C("t"), C("r"), C("x y") >>
-EscRuns == {EscEl[a] \o EscEl[b] : a \in 1..Len(EscEl), b \in 1..Len(EscEl)}
-           \cup {EscEl[a] \o EscEl[b] \o EscEl[c] : a \in 1..Len(EscEl), b \in 1..Len(EscEl), c \in 1..Len(EscEl)}
 Escapes(u_) == {Vec(24, Pres[1], <<D(r)>>, << >>, TailMenu[1]) : r \in EscRuns}
                \cup {Vec(24, Pres[5], <<D(C("C:") \o r \o <<LF>> \o C("     ") \o r)>>, << >>, TailMenu[1]) : r \in EscRuns}
                \cup {Vec(24, Pres[1], <<S(r), D(r)>>, <<Joins[1]>>, TailMenu[1]) : r \in EscRuns}
+
+\* family 25: comments between and around the pieces of a concatenation, bodies from the shared menu (empty, starting or
+\* ending with / and *, holding the other marker, quotes, braces, semicolons), with and without blanks around them:
+\* whatever stands between the pieces is trivia, the value is the pieces joined
+Cmts == [i \in 1..Len(BlockBodies) |-> CmtBlock(BlockBodies[i])] \o [i \in 1..Len(LineBodies) |-> CmtLine(LineBodies[i])]
+Abx == <<D(C("a")), S(C("x")), D(C("b"))>>
+CommentJoins(u_) ==
+  {Vec(25, Pres[1], Abx, <<sp \o Cmts[i] \o sp \o C("+") \o sp, sp \o C("+") \o sp \o Cmts[j] \o sp>>, TailMenu[1])
+     : i \in 1..Len(Cmts), j \in 1..Len(Cmts), sp \in {E0, <<SP>>}}
+  \cup {Vec(25, Pres[1], Abx, <<sp \o Cmts[i] \o sp \o C("+") \o sp \o Cmts[i] \o sp, sp \o Cmts[i] \o C("+") \o Cmts[i]>>, TailMenu[1])
+     : i \in 1..Len(Cmts), sp \in {E0, <<SP>>}}
+  \cup {VecAt(25, C("  ") \o Kw \o <<SP>> \o Cmts[i] \o sp, Abx, <<C("+"), C(" + ")>>, sp \o Cmts[i] \o C(";"), <<3>>) : i \in 1..Len(Cmts), sp \in {E0, <<SP>>}}
 
 \* family 100: everything at random
 RE(seq) == seq[RandomElement(1..Len(seq))]
@@ -152,8 +163,8 @@ Random(u_) == {RandVec(k) : k \in 1..(NRand \div 2)}
 
 \* (the big sets take a dummy parameter: TLC evaluates every parameterless definition once at start-up, single-threaded)
 Cases == IF fam <= Len(Pres) THEN TwoLines(fam)
-         ELSE IF fam = 20 THEN ThreeLines(0) ELSE IF fam = 21 THEN Plain(0) ELSE IF fam = 22 THEN Concat2(0) ELSE IF fam = 23 THEN Concat3(0) ELSE IF fam = 24 THEN Escapes(0) ELSE Random(0)
-GInit == fam \in PreFams \cup {20, 21, 22, 23, 24, 100, 101} /\ done = FALSE
+         ELSE IF fam = 20 THEN ThreeLines(0) ELSE IF fam = 21 THEN Plain(0) ELSE IF fam = 22 THEN Concat2(0) ELSE IF fam = 23 THEN Concat3(0) ELSE IF fam = 24 THEN Escapes(0) ELSE IF fam = 25 THEN CommentJoins(0) ELSE Random(0)
+GInit == fam \in PreFams \cup {20, 21, 22, 23, 24, 25, 100, 101} /\ done = FALSE
 GNext == /\ ~done /\ done' = TRUE /\ UNCHANGED fam
          /\ ndJsonSerialize("vec_" \o ToString(fam) \o ".ndjson", SetToSeq(Cases))
 =============================================================================
